@@ -106,7 +106,7 @@ PROPS = {
         "props_module": "RedbModel.Props.C02",
         "props_modules_extra": ["RedbModel.Props.Life2"],
         "streams": [("history", ["--focus", "c02"], "history"), ("sched", ["--focus", "c02"], "sched")],
-        "rule": 'a case is one random history of whole-database steps (write transactions of every durability / two-phase / quick-repair mix with table, multimap, delete-table and savepoint create/restore/delete operations, ending in commit, abort or drop; begin_read / drop reader; drop savepoint; clean reopen; crash-reopen; compact; check_integrity; list savepoints), page 512..4096, region 64 KiB..default, cache 0..1 GiB; after every step: committed contents vs recorded commit point, every live reader re-read vs its start contents, page accounting from the snapshot hooks, fingerprints of every pinned tree, `hist state` line for the Lean monitor; histories end with a quiescence check; distinct by hash of lines, non-trivial if completed' + " (generator weighted for C02); second stream: the forced two-thread schedules of C03 restricted to pairs in which one call is a read or a reader drop (each schedule one evaluation)",
+        "rule": 'a case is one random history of whole-database steps (write transactions of every durability / two-phase / quick-repair mix with table, multimap, delete-table and savepoint create/restore/delete operations, ending in commit, abort or drop; begin_read / drop reader; drop savepoint; clean reopen; crash-reopen; compact; check_integrity; list savepoints), page 512..4096, region 64 KiB..default, cache 0..1 GiB; after every step: committed contents vs recorded commit point, every live reader re-read vs its start contents, page accounting from the snapshot hooks, fingerprints of every pinned tree, `hist state` line for the Lean monitor; histories end with a quiescence check; distinct by hash of lines, non-trivial if completed' + " (generator weighted for C02); every third reader drops its transaction and table handles at once and lives on only through an owned range iterator (consumed three entries per later step and compared with the snapshot) and an owned value guard; second stream: the forced two-thread schedules of C03 restricted to pairs in which one call is a read or a reader drop (each schedule one evaluation)",
         "trusted_base": BASE_TRUST + ["modelled, not verified: the page life-cycle of transactions.rs / transaction_tracker.rs / page_manager.rs twice: as the ownership monitor Model/Lifecycle.lean (ownOk, pinOk, moveOk, stepOk, abortOk) and as the algorithmic state machine Model/Life2.lean (commit pipeline beginWrite / savepoint ops / data step / merge / release / publish / epilogue, non-durable reclaim, abort, readers, savepoints, reopen, crash) whose inputs are the observed tree diffs (the B-tree layer is an input, under a stated guard) and one oracle input (which lost system pages a quick-repair commit recorded before the allocator snapshot); owner sets are computed with redb's own tree traversal through the read-only hook (the Lean format decoder checks the same images independently in C10)"],
         "assumptions": ["histories are single-threaded; thread interleavings of reader and writer calls are covered by the forced schedules of the C03 harness restricted to reader-vs-anything pairs (one preemption per schedule)", "preemption inside lock-protected blocks and weak-memory effects are not modelled"],
         "explanation": 'Lean: algorithmic model: life2_pinned_frozen / life2_no_early_reuse for every reachable state (pages of the snapshot of a reader stay allocated and are not handed out); pinned snapshot pages never change owner except into later pending-free records, over whole traces; harness: every live read transaction is re-read completely after every later step of any kind and compared with the contents at its begin_read; byte fingerprint of its tree unchanged',
